@@ -1268,3 +1268,11 @@ axiom('quot', 'lemma', 'quot-dist', ForAll([_D, _D2, _s1, _s2], Implies(And(quot
 def s_cls(ev, D, x): return SV(SET(ATOM), clsF(D.z, x.z))
 @spec('quot_struct')
 def s_quot_struct(ev, D, R): return SV(BOOL, quot_b(D.z, R.z))
+
+
+# ---------------------------------------------------------------------- PDA closures configuration by configuration (C02: pda_words_up_to_n)
+def csingle(c): return Store(z3.K(Conf, False), c, True)
+axiom('pdax', 'lemma', 'EcloP-by-singletons', ForAll([_Pp, _Rc, _c2], Select(EcloP(_Pp, _Rc), _c2) == Exists([_c1], And(Select(_Rc, _c1), Select(EcloP(_Pp, csingle(_c1)), _c2)))))
+_c3 = Const('c3', Conf)
+axiom('pdax', 'lemma', 'reachP-step-pw', ForAll([_Pp, _w, _a, _c2], Select(reachP(_Pp, Word.snoc(_w, _a)), _c2) ==
+      Exists([_c1], And(Select(reachP(_Pp, _w), _c1), Select(EcloP(_Pp, stepsetP(_Pp, csingle(_c1), _a)), _c2)))))
